@@ -1001,3 +1001,129 @@ Print Assumptions C01_volchain_other_entries_unchanged.
 Print Assumptions C01_volchain_create_in_root_decodes_partial.
 Print Assumptions C01_vol_remove_file_decodes.
 Print Assumptions C01_vol_remove_file_failed_unchanged.
+
+(* ================================================================ GROWTH of a chain-backed directory on whole images
+   (Model/VolChainGrow.v, Proofs/VolChainGrowProofs.v; FAT12/16, a directory referenced from the fixed root).
+   vol_create_file_grow im fi l name now = dir.create_file(name) with the directory's chain [l] and the FS-info latch [fi], INCLUDING
+   the case where a slot of the run lies at the end of the chain: File::write then calls fs.alloc_cluster(Some(last cluster), zero):
+   the image-level allocator of Model/VolFile.v (hint / latch as there) through all mirrored FAT copies, the zero fill of the new
+   cluster, the link, and the slots written one by one at their device offsets - a long-name run may straddle the old last
+   cluster and the new one, and a 21-slot run in 16-slot clusters takes TWO new clusters.  Result: outcome, image, latch, chain.
+   Premises: a sane FAT12/16 geometry with cluster size a multiple of 32; bytes < 256; the latch consistent with the table; the volume
+   has NO issue of Spec/Wf.v; the root holds a directory node with chain [l] (which, with well-formedness, gives every
+   "avoids" premise of C01_volchain_create_in_root_decodes_partial); the directory is smaller than 2^32 bytes. *)
+From FatVerif Require Import Model.VolChainGrow Spec.WfFold Proofs.DupLongProofs Proofs.VolChainGrowProofs Proofs.VolChainGrowExamples.
+
+(* ---- every outcome, in terms of the slot layer: the call is Model/DirSlots.create_entry on the directory's slots with kind
+   Chained and [free] = the number of clusters the allocator delivered ([news]; appended to the chain, pairwise distinct, free
+   before, allocated now) - the abstract "a write at the end of the chain allocates one zero-filled cluster while free clusters
+   remain" of the slot layer (C01_write_entry_cases, C01_create_entry_refines ...) is what the image-level code does *)
+Theorem C01_volchain_grow_refines_slots : forall fold upper oem im fi l name now r im' fi' l' ra ed children labels rb,
+  let g := parse_geom im in
+  fixed_root_geom g /\ g_cluster_size g mod 32 = 0 -> FatProofs.bytes_ok im ->
+  fi_inv fstore (val_ft (ft_of g)) (store_of g im) fi (g_clusters g) ->
+  Wf.wf_issues fold im = [] -> v_root (abs im) = ra ++ NDir ed (Some l) children [] labels :: rb ->
+  N.of_nat (cluster_slots g * length l) < 134217728 -> TimeProofs.datetime_valid now = true ->
+  vol_create_file_grow upper oem im fi l name now = (r, (im', fi', l')) ->
+  exists news,
+    l' = l ++ news /\ NoDup news /\
+    (forall x, In x news -> 2 <= x < g_clusters g + 2 /\ fat_val g im x = FFree /\ fat_val g im' x <> FFree) /\
+    (forall x, 2 <= x < g_clusters g + 2 -> ~ In x news -> (fat_val g im' x = FFree <-> fat_val g im x = FFree)) /\
+    Abs.count_free g im' + N.of_nat (length news) = Abs.count_free g im /\
+    FatProofs.bytes_ok im' /\ fi_inv fstore (val_ft (ft_of g)) (store_of g im') fi' (g_clusters g) /\
+    (news = [] -> fi' = fi) /\
+    (forall a, check_for_existence upper oem (chain_dir_slots g im l) name (Some false) = Ok (Fresh a) -> r = Err ENotEnoughSpace ->
+       Abs.count_free g im' = 0) /\
+    create_entry upper oem false (Chained (cluster_slots g)) (length news) (chain_dir_slots g im l) name 0 None now false
+      = (r, chain_dir_slots g im' l').
+Proof. intros fold upper oem. exact (vol_grow_accounting upper oem fold). Qed.
+
+(* ---- SUCCESS.  (a) the chain afterwards is the old chain plus [news] (none / one / two clusters), free before; (b) the decoded
+   volume is the old one with ONE node - a plain empty file carrying the name, a fresh legal alias, the stamps of [now] - inserted
+   among the children of that directory (first fit), the directory node now carrying the longer chain; every other node of the
+   tree, root issues, labels, geometry, status byte as before; (c) frame: FAT entries other than those of [news] and of the old
+   last cluster keep their value; no byte changes outside the mirrored FAT copies and the clusters of the NEW chain (and none
+   outside the OLD chain when nothing was allocated); every other data cluster keeps its bytes; (d) count_free drops by exactly
+   length news (C05); (e) still no issue of Spec/Wf.v - the new cluster is zero behind the written slots, so the end-marker clause
+   holds - and every premise holds again for the result.  [fold_agrees] / valid UTF-16 of the stored names / [str_valid]: the
+   WDupLong link of Props/C03.v, here for the directory's children. *)
+Theorem C01_volchain_grow_create_decodes : forall fold upper oem im fi l name now range im' fi' l' ra ed children labels rb,
+  let g := parse_geom im in
+  fold_agrees upper fold ->
+  fixed_root_geom g /\ g_cluster_size g mod 32 = 0 -> FatProofs.bytes_ok im ->
+  fi_inv fstore (val_ft (ft_of g)) (store_of g im) fi (g_clusters g) ->
+  Wf.wf_issues fold im = [] -> v_root (abs im) = ra ++ NDir ed (Some l) children [] labels :: rb ->
+  N.of_nat (cluster_slots g * length l) < 134217728 ->
+  Forall (fun u => utf16_okb u = true) (map e_lfn (map node_entry children)) -> str_valid name = true ->
+  TimeProofs.datetime_valid now = true ->
+  vol_create_file_grow upper oem im fi l name now = (Ok (Some range), (im', fi', l')) ->
+  exists news c1 c2 ne st,
+    l' = l ++ news /\ NoDup news /\
+    (forall x, In x news -> 2 <= x < g_clusters g + 2 /\ fat_val g im x = FFree /\ ~ In x l) /\
+    children = c1 ++ c2 /\
+    v_root (abs im') = ra ++ NDir ed (Some l') (c1 ++ NFile ne None [] :: c2) [] labels :: rb /\
+    e_lfn ne = (if is_dot_name name then [] else utf16_encode name) /\ e_lfn_ok ne = true /\
+    e_size ne = 0 /\ e_cluster ne = 0 /\ e_attr ne = 0 /\ e_ntres ne = 0 /\
+    stamp_create now = Ok st /\
+    e_ctime_ms ne = create_time_0 st /\ e_ctime ne = create_time_1 st /\ e_cdate ne = create_date st /\
+    e_adate ne = access_date st /\ e_mtime ne = modify_time st /\ e_mdate ne = modify_date st /\
+    e_first_slot ne = fst range /\ e_sfn_slot ne + 1 = snd range /\
+    sfn_legal_b (e_sfn ne) = true /\ ~ In (e_sfn ne) (map e_sfn (map node_entry children)) /\
+    v_root_issues (abs im') = v_root_issues (abs im) /\ v_labels (abs im') = v_labels (abs im) /\
+    v_geom (abs im') = v_geom (abs im) /\ v_status (abs im') = v_status (abs im) /\
+    (forall x, 2 <= x < g_clusters g + 2 -> ~ In x news -> (news = [] \/ x <> last l 0) -> fat_val g im' x = fat_val g im x) /\
+    (forall a, ~ in_store_area g a -> (forall c, In c l' -> ~ in_cluster g c a) -> img_get im' a = img_get im a) /\
+    (news = [] -> forall a, (forall c, In c l -> ~ in_cluster g c a) -> img_get im' a = img_get im a) /\
+    (forall c, 2 <= c < g_clusters g + 2 -> ~ In c l' -> cluster_bytes g im' c = cluster_bytes g im c) /\
+    Abs.count_free g im' + N.of_nat (length news) = Abs.count_free g im /\
+    Wf.wf_issues fold im' = [] /\
+    parse_geom im' = g /\ FatProofs.bytes_ok im' /\ fi_inv fstore (val_ft (ft_of g)) (store_of g im') fi' (g_clusters g) /\
+    Forall (fun u => utf16_okb u = true) (map e_lfn (map node_entry (c1 ++ NFile ne None [] :: c2))).
+Proof. intros fold upper oem. exact (vol_grow_create_decodes upper oem fold). Qed.
+
+(* ---- the volume of C01_volchain_example (directory D, chain [2], 16 slots, "." and ".."): the premises hold; a name of 200
+   characters (17 slots) - declined by the model without growth - succeeds here: slots 2 .. 18, cluster 3 allocated (first free,
+   no hint), zeroed over the device fill 0xD1, linked 2 -> 3 -> end; hint 4 afterwards; one child more; no issue; free 59 -> 58;
+   the next cluster untouched *)
+Example C01_volchain_grow_example :
+  (let im := ex_sub_im in
+   (fixed_root_geom (parse_geom im) /\ g_cluster_size (parse_geom im) mod 32 = 0) /\ FatProofs.bytes_ok im /\
+   fi_inv fstore (val_ft (ft_of (parse_geom im))) (store_of (parse_geom im) im) ex_fi0 (g_clusters (parse_geom im)) /\
+   Wf.wf_issues (fun x => x) im = [] /\
+   (exists ed d1 d2, v_root (abs im) = [] ++ NDir ed (Some [2]) [NDot d1; NDot d2] [] [] :: []) /\
+   N.of_nat (cluster_slots (parse_geom im) * length [2]) < 134217728 /\ TimeProofs.datetime_valid ex_vol_now = true /\
+   str_valid ex_long_name = true) /\
+  vol_create_empty_file_chain upper_ascii oem_decode_lossy ex_sub_im [2] ex_long_name ex_vol_now = None /\
+  match vol_create_file_grow upper_ascii oem_decode_lossy ex_sub_im ex_fi0 [2] ex_long_name ex_vol_now with
+  | (r, (im', fi', l')) =>
+    r = Ok (Some (2, 19)) /\ l' = [2; 3] /\ fi' = {| fi_free := None; fi_next := Some 4; fi_dirty := true |} /\
+    ex_kids ex_sub_im = [(Some [2], [0; 0], [])] /\ ex_kids im' = [(Some [2; 3], [0; 0; 200], [])] /\
+    Wf.wf_issues (fun x => x) im' = [] /\
+    Abs.count_free (parse_geom ex_sub_im) ex_sub_im = 59 /\ Abs.count_free (parse_geom ex_sub_im) im' = 58 /\
+    fat_val (parse_geom ex_sub_im) ex_sub_im 3 = FFree /\ fat_val (parse_geom ex_sub_im) im' 2 = FNext 3 /\
+    fat_val (parse_geom ex_sub_im) im' 3 = FEoc /\
+    map (fun k => img_get im' (2560 + 32 * k)) [0; 1; 2; 3; 15] = [2; 1; 88; 0; 0] /\ img_get ex_sub_im 2560 = 209 /\
+    img_read im' 3072 4 = img_read ex_sub_im 3072 4
+  end.
+Proof. cbv zeta. split; [exact ex_grow_premises|]. split; [vm_compute; reflexivity|exact ex_grow_success]. Qed.
+
+(* ---- FAILURE.  The claim "a create that fails leaves the device as it was" is FALSE of the faithful model when the directory
+   must grow and no cluster is free (known class `nospace-during-entry-write`; the full characterisation is
+   Props/C03.v C03_volchain_grow_nospace_residue).  The witness: the same volume with every other cluster owned by a file F - every
+   premise holds, no cluster is free -, create_file of the 200-character name in D: NotEnoughSpace, slot 2 of the directory's
+   cluster (device byte 2112, an unused slot before) now starts with 0x50, and the one finding is an orphan run *)
+Theorem C01_volchain_grow_nospace_unchanged_refuted :
+  exists im fi l name now im' fi' l',
+    (fixed_root_geom (parse_geom im) /\ g_cluster_size (parse_geom im) mod 32 = 0) /\ FatProofs.bytes_ok im /\
+    fi_inv fstore (val_ft (ft_of (parse_geom im))) (store_of (parse_geom im) im) fi (g_clusters (parse_geom im)) /\
+    Wf.wf_issues (fun x => x) im = [] /\ N.of_nat (cluster_slots (parse_geom im) * length l) < 134217728 /\
+    TimeProofs.datetime_valid now = true /\
+    (exists ra ed children labels rb, v_root (abs im) = ra ++ NDir ed (Some l) children [] labels :: rb) /\
+    Abs.count_free (parse_geom im) im = 0 /\
+    vol_create_file_grow upper_ascii oem_decode_lossy im fi l name now = (Err ENotEnoughSpace, (im', fi', l')) /\
+    img_get im' (2048 + 64) <> img_get im (2048 + 64) /\ Wf.wf_issues (fun x => x) im' = [Wf.WOrphanLfn 2 16].
+Proof. exact grow_nospace_unchanged_refuted. Qed.
+
+Print Assumptions C01_volchain_grow_refines_slots.
+Print Assumptions C01_volchain_grow_create_decodes.
+Print Assumptions C01_volchain_grow_nospace_unchanged_refuted.
